@@ -7,6 +7,7 @@ from pydiverse.common import (
     Date,
     Datetime,
     Float,
+    Int,
     String,
 )
 from pydiverse.transform._internal.backend.sql import SqlImpl
@@ -92,6 +93,12 @@ class SqliteImpl(SqlImpl):
 
 
 with SqliteImpl.impl_store.impl_manager as impl:
+
+    @impl(ops.truediv, Int(), Int())
+    def _truediv(x, y):
+        # SQLAlchemy types the quotient of two integers as NUMERIC, which comes back as
+        # a python Decimal with ten digits.
+        return sqa.type_coerce(x / y, sqa.Double())
 
     @impl(ops.round)
     def _round(x, decimals):
